@@ -64,6 +64,7 @@ Matches(e, r) ==
        [] e.ev = "exit"   -> r.id = e.id /\ r.ret = e.v
        [] e.ev = "arrive" -> r.id = e.id
        [] e.ev = "joiner" -> r.n = e.id
+       [] e.ev = "fxjoin" -> r.n = e.id
        [] e.ev = "hcall"  -> r.args = e.vs
        [] e.ev = "drop"   -> r.v = e.v
        [] e.ev = "pollend" -> r.done = (e.id = 1)
